@@ -76,7 +76,7 @@ pub proof fn lemma_flat_all_push_elem(es: Els, e: LuaGreenElement, ch: Seq<usize
 
 /// `token`: a new leaf at the end of the root list
 pub proof fn lemma_token(es: Els, ch: Seq<usize>, e: LuaGreenElement)
-    requires wf_elems(es), wf_top(ch, es), e is Token,
+    requires wf_elems(es), wf_top(ch, es), e is Token, es.len() <= usize::MAX,
     ensures
         wf_elems(es.push(e)),
         wf_top(ch.push(es.len() as usize), es.push(e)),
@@ -96,7 +96,7 @@ pub proof fn lemma_token(es: Els, ch: Seq<usize>, e: LuaGreenElement)
 /// at the end of `es`) and put the node's index in its place — the leaves, in order, stay the same
 pub proof fn lemma_wrap_flat(es: Els, ch: Seq<usize>, cs: int, ce: int, node: LuaGreenElement)
     requires
-        wf_top(ch, es),
+        wf_top(ch, es), es.len() <= usize::MAX,
         0 <= cs <= ce <= ch.len(),
         node is Node,
         kids(node) == ch.subrange(cs, ce),
@@ -128,7 +128,7 @@ pub proof fn lemma_wrap_flat(es: Els, ch: Seq<usize>, cs: int, ce: int, node: Lu
 
 pub proof fn lemma_wrap_wf(es: Els, ch: Seq<usize>, cs: int, ce: int, node: LuaGreenElement)
     requires
-        wf_elems(es), wf_top(ch, es),
+        wf_elems(es), wf_top(ch, es), es.len() <= usize::MAX,
         0 <= cs <= ce <= ch.len(),
         node is Node,
         kids(node) == ch.subrange(cs, ce),
@@ -387,5 +387,201 @@ pub proof fn lemma_nclose_bounds(s: GS)
     if s.len() > 0 {
         lemma_nclose_bounds(s.drop_last());
         if s.len() > 1 { assert(s.drop_last()[0] == s[0]); }
+    }
+}
+
+// ---------------------------------------------------------------------------------------------
+// finish
+// ---------------------------------------------------------------------------------------------
+/// the leaves of the first root are a prefix of all leaves; a single root has all of them
+pub proof fn lemma_first_root(es: Els, ch: Seq<usize>, text: &str)
+    requires wf_top(ch, es), ch.len() > 0, ranges_ok(text, flat_list(es, ch, es.len() as int)),
+    ensures
+        is_root(es, ch[0] as int),
+        flat_list(es, ch, es.len() as int) == flat(es, ch[0] as int) + flat_list(es, ch.subrange(1, ch.len() as int), es.len() as int),
+        ranges_ok(text, flat(es, ch[0] as int)),
+        ch.len() == 1 ==> flat_list(es, ch, es.len() as int) == flat(es, ch[0] as int),
+{
+    let n = es.len() as int;
+    let rest = ch.subrange(1, ch.len() as int);
+    assert(ch =~= seq![ch[0]] + rest);
+    lemma_flat_list_append(es, seq![ch[0]], rest, n);
+    lemma_flat_list_one(es, ch[0], n);
+    let all = flat_list(es, ch, n);
+    let f0 = flat(es, ch[0] as int);
+    assert forall|k: int| 0 <= k < f0.len() implies range_ok(text, #[trigger] f0[k]) by {
+        assert(all[k] == f0[k]);
+    }
+    if ch.len() == 1 {
+        assert(rest =~= Seq::<usize>::empty());
+        assert(f0 + Seq::<SourceRange>::empty() =~= f0);
+    }
+    assert forall|x: int, a: int| 0 <= x < es.len() && 0 <= a < kids(es[x]).len() implies (#[trigger] kids(es[x])[a] as int) != ch[0] as int by {
+        assert(ch[0] != kids(es[x])[a]);
+    }
+}
+
+/// the repaired `finish`: all roots wrapped into one new node (pushed at the end of `es`)
+pub proof fn lemma_wrap_all(es: Els, ch: Seq<usize>, node: LuaGreenElement)
+    requires
+        wf_elems(es), wf_top(ch, es), es.len() <= usize::MAX,
+        node is Node, kids(node) == ch,
+    ensures
+        wf_elems(es.push(node)),
+        is_root(es.push(node), es.len() as int),
+        flat(es.push(node), es.len() as int) == flat_list(es, ch, es.len() as int),
+{
+    let n = es.len() as int;
+    let es2 = es.push(node);
+    assert(ch.subrange(0, ch.len() as int) =~= ch);
+    lemma_wrap_wf(es, ch, 0, ch.len() as int, node);
+    lemma_wrap_flat(es, ch, 0, ch.len() as int, node);
+    let top = ch.subrange(0, 0).push(n as usize) + ch.subrange(ch.len() as int, ch.len() as int);
+    assert(top =~= seq![n as usize]);
+    lemma_flat_list_one(es2, n as usize, n + 1);
+    assert forall|x: int, a: int| 0 <= x < es2.len() && 0 <= a < kids(es2[x]).len() implies (#[trigger] kids(es2[x])[a] as int) != n by {
+        assert(top[0] != kids(es2[x])[a]);
+    }
+}
+
+// ---------------------------------------------------------------------------------------------
+// abstract builder
+// ---------------------------------------------------------------------------------------------
+pub proof fn lemma_fl_wrap(es: Els, ch: Seq<usize>, cs: int, ce: int, node: LuaGreenElement)
+    requires
+        wf_top(ch, es), es.len() <= usize::MAX,
+        0 <= cs <= ce <= ch.len(),
+        node is Node,
+    ensures
+        fl_of(es.push(node), ch.subrange(0, cs).push(es.len() as usize) + ch.subrange(ce, ch.len() as int))
+            == fl_of(es, ch).subrange(0, cs).push(node_flags(node->Node_kind)) + fl_of(es, ch).subrange(ce, ch.len() as int),
+{
+    let n = es.len() as int;
+    let es2 = es.push(node);
+    let ch2 = ch.subrange(0, cs).push(n as usize) + ch.subrange(ce, ch.len() as int);
+    let lhs = fl_of(es2, ch2);
+    let rhs = fl_of(es, ch).subrange(0, cs).push(node_flags(node->Node_kind)) + fl_of(es, ch).subrange(ce, ch.len() as int);
+    assert(lhs.len() == rhs.len());
+    assert forall|k: int| 0 <= k < lhs.len() implies lhs[k] == rhs[k] by {
+        if k < cs {
+            assert(ch2[k] == ch[k]); assert((ch[k] as int) < n);
+        } else if k == cs {
+            assert(ch2[k] == n as usize);
+        } else {
+            assert(ch2[k] == ch[k - cs - 1 + ce]); assert((ch[k - cs - 1 + ce] as int) < n);
+        }
+    }
+    assert(lhs =~= rhs);
+}
+
+pub proof fn lemma_fl_token(es: Els, ch: Seq<usize>, e: LuaGreenElement)
+    requires wf_top(ch, es), es.len() <= usize::MAX, e is Token,
+    ensures fl_of(es.push(e), ch.push(es.len() as usize)) == fl_of(es, ch).push(tk_flags(e->Token_kind)),
+{
+    let n = es.len() as int;
+    let lhs = fl_of(es.push(e), ch.push(n as usize));
+    let rhs = fl_of(es, ch).push(tk_flags(e->Token_kind));
+    assert forall|k: int| 0 <= k < lhs.len() implies lhs[k] == rhs[k] by {
+        if k < ch.len() { assert((ch[k] as int) < n); }
+    }
+    assert(lhs =~= rhs);
+}
+
+// ---------------------------------------------------------------------------------------------
+// LuaTreeBuilder::build
+// ---------------------------------------------------------------------------------------------
+pub proof fn lemma_eaten_step(ev0: Seq<MarkEvent>, i: int)
+    requires 0 <= i < ev0.len(),
+    ensures
+        eaten(ev0.subrange(0, i + 1)) == (match ev0[i] {
+            MarkEvent::EatToken { range, .. } => eaten(ev0.subrange(0, i)).push(range),
+            _ => eaten(ev0.subrange(0, i)),
+        }),
+{
+    let s = ev0.subrange(0, i + 1);
+    assert(s.drop_last() =~= ev0.subrange(0, i));
+    assert(s.last() == ev0[i]);
+}
+
+/// replacing an event by `none()` keeps `events_ok` (`none()` is a `NodeStart` without a parent link)
+pub proof fn lemma_events_ok_update(ev: Seq<MarkEvent>, j: int)
+    requires events_ok(ev), 0 <= j < ev.len(),
+    ensures events_ok(ev.update(j, none_ev())),
+{
+    let ev2 = ev.update(j, none_ev());
+    assert forall|i: int| 0 <= i < ev2.len() implies
+        (#[trigger] ev2[i] matches MarkEvent::NodeStart { parent, .. } ==> parent == 0 || (i < parent < ev2.len() && ev2[parent as int] is NodeStart)) by {
+        if i != j { assert(ev2[i] == ev[i]); }
+    }
+}
+
+/// sanity check of the two assumptions on the event list (non-vacuity on a concrete list): the events of the chunk `x`
+/// — `NodeStart(Block) NodeStart(NameExpr) EatToken(TkName) NodeEnd NodeEnd` — satisfy `events_ok` and `parents_ok`
+pub proof fn lemma_assumptions_hold_for_a_small_chunk()
+    ensures ({
+        let ev = seq![
+            MarkEvent::NodeStart { kind: LuaSyntaxKind::Block, parent: 0 },
+            MarkEvent::NodeStart { kind: LuaSyntaxKind::NameExpr, parent: 0 },
+            MarkEvent::EatToken { kind: LuaTokenKind::TkName, range: SourceRange { start_offset: 0, length: 1 } },
+            MarkEvent::NodeEnd,
+            MarkEvent::NodeEnd,
+        ];
+        events_ok(ev) && parents_ok(ev)
+    }),
+{
+    let ev = seq![
+        MarkEvent::NodeStart { kind: LuaSyntaxKind::Block, parent: 0 },
+        MarkEvent::NodeStart { kind: LuaSyntaxKind::NameExpr, parent: 0 },
+        MarkEvent::EatToken { kind: LuaTokenKind::TkName, range: SourceRange { start_offset: 0, length: 1 } },
+        MarkEvent::NodeEnd,
+        MarkEvent::NodeEnd,
+    ];
+    let e = Seq::<(bool, bool)>::empty();
+    let k0 = (LuaSyntaxKind::Chunk, 0usize); let k1 = (LuaSyntaxKind::Block, 0usize); let k2 = (LuaSyntaxKind::NameExpr, 0usize);
+    let nt = (false, false);
+    // step by step
+    let s0 = sim(ev, 0);
+    assert(s0.ab.parents =~= seq![k0] && s0.ab.fl =~= e);
+    let s1 = sim(ev, 1);
+    assert(s1 == sim_step(s0, 0));
+    let w1 = walk(ev.update(0, none_ev()), 0, seq![LuaSyntaxKind::Block]);
+    assert(w1.1 =~= seq![LuaSyntaxKind::Block]);
+    assert(w1.1.drop_last() =~= Seq::<LuaSyntaxKind>::empty());
+    assert(ab_starts_rev(s0.ab, w1.1) == ab_starts_rev(ab_start(s0.ab, LuaSyntaxKind::Block), Seq::<LuaSyntaxKind>::empty()));
+    assert(s1.ab.parents =~= seq![k0, k1] && s1.ab.fl =~= e);
+    let s2 = sim(ev, 2);
+    assert(s2 == sim_step(s1, 1));
+    let w2 = walk(s1.ev.update(1, none_ev()), 0, seq![LuaSyntaxKind::NameExpr]);
+    assert(w2.1 =~= seq![LuaSyntaxKind::NameExpr]);
+    assert(w2.1.drop_last() =~= Seq::<LuaSyntaxKind>::empty());
+    assert(ab_starts_rev(s1.ab, w2.1) == ab_starts_rev(ab_start(s1.ab, LuaSyntaxKind::NameExpr), Seq::<LuaSyntaxKind>::empty()));
+    assert(s2.ab.parents =~= seq![k0, k1, k2] && s2.ab.fl =~= e);
+    let s3 = sim(ev, 3);
+    assert(s3 == sim_step(s2, 2));
+    assert(s3.ab.parents =~= seq![k0, k1, k2] && s3.ab.fl =~= seq![nt]);
+    assert(s3.ev[3] is NodeEnd);
+    // NodeEnd of NameExpr: start 0 <= 1 child
+    assert(ab_top_ok(s3.ab));
+    let s4 = sim(ev, 4);
+    assert(s4 == sim_step(s3, 3));
+    assert(scan_fwd(s3.ab.fl, 0, false) == 0);
+    assert(scan_end(s3.ab.fl, 0, 0, false) == 0);
+    assert(s3.ab.parents.drop_last() =~= seq![k0, k1]);
+    assert(s4.ab.parents =~= seq![k0, k1]);
+    assert(s4.ab.fl =~= seq![nt]);
+    assert(ab_top_ok(s4.ab));
+    let s5 = sim(ev, 5);
+    assert(s5 == sim_step(s4, 4));
+    assert(scan_back(s4.ab.fl, 0) == 0);
+    assert(s4.ab.parents.drop_last() =~= seq![k0]);
+    assert(s5.ab.parents =~= seq![k0]);
+    assert(s5.ab.fl =~= seq![nt]);
+    assert(ab_top_ok(s5.ab));
+    assert forall|i: int| 0 <= i < ev.len() && (#[trigger] sim(ev, i)).ev[i] is NodeEnd implies ab_top_ok(sim(ev, i).ab) by {
+        if i == 0 { assert(sim(ev, 0).ev[0] == ev[0]); }
+        else if i == 1 { assert(s1.ev[1] == ev[1]); }
+        else if i == 2 { assert(s2.ev[2] == ev[2]); }
+        else if i == 3 { }
+        else { assert(i == 4); }
     }
 }
